@@ -5,6 +5,8 @@ from pathlib import Path
 sys.path.insert(0, str(Path(__file__).resolve().parent))
 import common
 import tablelib as tl
+import tableext as tx
+import tablegrp as tg
 
 KINDS = ['empty', 'prefilled', 'rle', 'rle', 'sample']
 
@@ -20,7 +22,34 @@ def _worker(job):
 
 def _replay_worker(case):
     odfdo = common.use_repo()
+    if case.get('family') == 'ext':
+        return case, tx.run_case2(odfdo, case)
+    if case.get('family') == 'grp':
+        return case, tg.run_case3(odfdo, case)
     return case, tl.run_case(odfdo, case)
+
+
+def _worker2(job):
+    seed, kind, nsteps, maxw, maxh, live = job
+    odfdo = common.use_repo()
+    return tx.gen_and_run2(odfdo, seed, kind, nsteps, maxw, maxh, live), None
+
+
+def _worker3(job):
+    seed, nsteps, kinds, maxw, maxh = job
+    odfdo = common.use_repo()
+    return tg.gen_and_run3(odfdo, seed, nsteps, kinds, maxw, maxh), None
+
+
+def plan_grp(tier, rng, kinds):
+    n = 160 if tier == 'quick' else 1500
+    return [(rng.getrandbits(48), rng.randint(1, 6 if tier == 'quick' else 10), kinds, 8, 8) for _ in range(n)]
+
+
+def plan_ext(tier, rng, live):
+    n = 220 if tier == 'quick' else 2000
+    maxw, maxh = (8, 8) if tier == 'quick' else (12, 12)
+    return [(rng.getrandbits(48), KINDS[i % len(KINDS)], rng.randint(1, 7 if tier == 'quick' else 10), maxw, maxh, live) for i in range(n)]
 
 
 def drive(jobs, fn=_worker, procs=16):
@@ -32,7 +61,7 @@ def drive(jobs, fn=_worker, procs=16):
 
 
 def plan(tier, rng, kinds):
-    n = 900 if tier == 'quick' else 10000
+    n = 700 if tier == 'quick' else 8000
     maxw, maxh = (8, 8) if tier == 'quick' else (12, 12)
     jobs = []
     for i in range(n):
@@ -95,7 +124,7 @@ def _row_sweep_cases(tier, rng=None):
                 cases.append((cells, ['del', x]))
     nexh = len(cases)
     if rng is not None:
-        for _ in range(1500 if tier == 'quick' else 20000):
+        for _ in range(800 if tier == 'quick' else 20000):
             cells = [tl.g_cellspec(rng) for _ in range(rng.randint(0, 4))]
             w = sum(c[0] for c in cells)
             x = rng.choice([0, 0, 1, w - 1, w, w + 1, w + 2, -1, -2, rng.randint(0, w + 1)])
@@ -185,11 +214,14 @@ def row_sweep(tier, only=None, rng=None):
 
 def pre_xml_of(odfdo, case, step):
     """serialised table right before step `step` (for shrinking)"""
-    d = tl.Driver(odfdo, case['init_xml'])
+    d = tx.Driver2(odfdo, case['init_xml'])
     for st in case['steps'][:step]:
-        d.apply(st['op'])
+        d.apply2(st['op'])
         for q in st.get('reads', []):
             try: d.read(q)
+            except Exception: pass
+        for q in st.get('reads2', []):
+            try: d.read2(q)
             except Exception: pass
     return tl.timed(d.table.serialize)
 
@@ -197,12 +229,18 @@ def pre_xml_of(odfdo, case, step):
 def evaluate(cases, checker, tag):
     """run cases on the implementation and in Coq; returns (results, {index: code}, coq errors)"""
     results = drive(cases, fn=_replay_worker)
-    terms, idx = [], []
-    for i, (case, res) in enumerate(results):
-        if res['term'] is not None:
-            terms.append(res['term']); idx.append(i)
-    bad, errors = common.run_shards(tl.HEADER, terms, checker, tag, shard=min(300, max(1, len(terms) // 16 + 1)))
-    return results, {idx[k]: c for k, c in bad.items()}, errors
+    out, errors = {}, []
+    for fam, header, chk in (('main', tl.HEADER, checker), ('ext', tx.HEADER2, checker + 'x'), ('grp', tg.HEADER3, checker + 'g')):
+        terms, idx = [], []
+        for i, (case, res) in enumerate(results):
+            if res['term'] is not None and case.get('family', 'main') == fam:
+                terms.append(res['term']); idx.append(i)
+        if not terms:
+            continue
+        bad, errs = common.run_shards(header, terms, chk, tag + fam[0], shard=min(300, max(1, len(terms) // 16 + 1)))
+        errors += errs
+        out.update({idx[k]: c for k, c in bad.items()})
+    return results, out, errors
 
 
 def run_table_check(prop, tier, seed, replay, checker, layers, soft_codes, kinds, extra=None, trusted=(), modelled='', assumptions=(),
@@ -238,7 +276,9 @@ def run_table_check(prop, tier, seed, replay, checker, layers, soft_codes, kinds
     else:
         jobs = plan(tier, rng, kinds)
         gen = drive(jobs)
-        cases = corpus + [c for c, r in gen if r is None or r.get('error') is None or True]
+        gen2 = drive(plan_ext(tier, rng, live=(prop == 'C01')), fn=_worker2)
+        gen3 = drive(plan_grp(tier, rng, kinds), fn=_worker3)
+        cases = corpus + [c for c, r in gen] + [c for c, r in gen2] + [c for c, r in gen3]
         results, bad, errors = evaluate(cases, checker, prop.lower())
         sweep = row_sweep(tier, rng=rng) if prop == 'C01' else None
     violations, known_seen, notes = [], [], []
@@ -255,10 +295,10 @@ def run_table_check(prop, tier, seed, replay, checker, layers, soft_codes, kinds
             continue
         seen_keys.add(key)
         # shrink: the single step from the serialised pre-state, else the prefix of the history
-        small = dict(kind=case['kind'], init_xml=case['init_xml'], steps=case['steps'][:step + 1])
+        small = dict(kind=case['kind'], family=case.get('family', 'main'), init_xml=case['init_xml'], steps=case['steps'][:step + 1])
         if rec is not None and not replay:
             try:
-                one = dict(kind='shrunk', init_xml=pre_xml_of(odfdo, case, step), steps=[case['steps'][step]])
+                one = dict(kind='shrunk', family=case.get('family', 'main'), init_xml=pre_xml_of(odfdo, case, step), steps=[case['steps'][step]])
                 r2, b2, e2 = evaluate([one], checker, prop.lower() + 's')
                 if b2 and list(b2.values())[0] % 100 == layer:
                     small = one
@@ -319,7 +359,7 @@ def run_table_check(prop, tier, seed, replay, checker, layers, soft_codes, kinds
     found_by_oracle = False
     if soft or abstraction_failures or not proofs['ok'] or errors:
         for i, (case, res) in enumerate(results):
-            st = tl.python_oracle(res) if res.get('term') else None
+            st = tl.python_oracle(res) if (res.get('term') and case.get('family', 'main') == 'main') else None
             if st is not None:
                 found_by_oracle = True
                 payload = dict(layer='direct Python reference (search phase)', key='oracle/%s' % res['records'][st]['op'][0],
